@@ -87,6 +87,9 @@ def check_stream_open_flags(ctx, rule):
         ctx.check(good, rule, "stream:open-flags", where,
                   "the event stream is opened with flags %#o: it must be created, writable and written from offset 0 "
                   "(no O_APPEND), otherwise the file is not exactly header + events" % v)
+        ctx.check(bool(v & 0o1000), rule, "stream:open-truncates", where,
+                  "the event stream is opened with flags %#o, without O_TRUNC: when a previous run left a longer stream "
+                  "at the same path (same trace directory, loom, pid and tid) its events remain after this run's" % v)
 
 
 def check_clock_source(ctx, rule):
